@@ -8,8 +8,8 @@
   powers of two, so the implementation's floats are exact as well.  pandas is *defined* here, i.e. assumed
   (sampled by the correspondence check): arithmetic of two Series on one index is pointwise with NaN absorbing,
   a scalar broadcasts, `x/NaN = NaN`; alignment is the model of C03 (`Align.posOf / posAsOf / posNext`).
-  DataFrame operands (column policies, neutral element of a missing column) are NOT in this Lean model; they are
-  checked on the implementation by the python reference in `pv/props/c08.py: laws`.
+  DataFrame operands (column policies, neutral element of a missing column) are modelled in PygModel/OpsF.lean,
+  the comparisons, `min_ / max_` and `pow_` in PygModel/OpsX.lean.
 -/
 import PygModel.Align
 
